@@ -7,6 +7,7 @@ import (
 	"fmt"
 	"sort"
 	"strings"
+	"time"
 
 	v1 "k8s.io/api/core/v1"
 	metav1 "k8s.io/apimachinery/pkg/apis/meta/v1"
@@ -368,12 +369,20 @@ func storageRoundTrip(rep *Report, r *Rng, seed uint64, idx int) {
 		// the size limit of a stored object once gzipped
 		rel.Manifest = strings.Repeat("# a manifest line that compresses well\n", (1+r.Intn(3))*(1<<20)/39)
 	}
+	// the zone the timestamps carry: a client's clock is rarely in UTC
+	zone := Pick(r, []*time.Location{time.UTC, time.UTC, time.FixedZone("CET", 3600), time.FixedZone("IST", 19800), time.FixedZone("PST", -8*3600), time.FixedZone("", 45*60)})
 	if r.Chance(50) {
-		rel.Info.FirstDeployed = helmtime.Unix(int64(r.Intn(2000000000)), int64(r.Intn(1000000000)))
-		rel.Info.LastDeployed = helmtime.Unix(int64(r.Intn(2000000000)), 0)
+		rel.Info.FirstDeployed = helmtime.Unix(int64(r.Intn(2000000000)), int64(r.Intn(1000000000))).In(zone)
+		rel.Info.LastDeployed = helmtime.Unix(int64(r.Intn(2000000000)), 0).In(zone)
+		if r.Chance(30) {
+			rel.Info.Deleted = helmtime.Unix(int64(r.Intn(2000000000)), int64(r.Intn(1000))*1000000).In(zone)
+		}
 	}
 	if r.Chance(40) {
 		rel.Hooks = []*release.Hook{{Name: "h", Kind: "Job", Path: "c/templates/h.yaml", Manifest: "kind: Job", Events: []release.HookEvent{release.HookPreInstall}, Weight: r.Intn(10) - 5, DeletePolicies: []release.HookDeletePolicy{release.HookSucceeded}}}
+		if r.Chance(50) {
+			rel.Hooks[0].LastRun = release.HookExecution{StartedAt: helmtime.Unix(int64(r.Intn(2000000000)), 0).In(zone), CompletedAt: helmtime.Unix(int64(r.Intn(2000000000)), 500).In(zone), Phase: release.HookPhaseSucceeded}
+		}
 	}
 	if r.Chance(50) {
 		rel.Labels = map[string]string{"team": "x", "env.example/y": "v-1"}
@@ -406,6 +415,24 @@ func storageRoundTrip(rep *Report, r *Rng, seed uint64, idx int) {
 		wl := rel.Labels
 		if wl == nil {
 			wl = map[string]string{}
+		}
+		// the instants, compared as instants (the encoding of a time is not the time)
+		type inst struct {
+			what      string
+			put, read helmtime.Time
+		}
+		insts := []inst{{"info.first_deployed", rel.Info.FirstDeployed, got.Info.FirstDeployed}, {"info.last_deployed", rel.Info.LastDeployed, got.Info.LastDeployed}, {"info.deleted", rel.Info.Deleted, got.Info.Deleted}}
+		if len(rel.Hooks) == 1 && len(got.Hooks) == 1 {
+			insts = append(insts, inst{"hook.last_run.started_at", rel.Hooks[0].LastRun.StartedAt, got.Hooks[0].LastRun.StartedAt}, inst{"hook.last_run.completed_at", rel.Hooks[0].LastRun.CompletedAt, got.Hooks[0].LastRun.CompletedAt})
+		}
+		for _, in := range insts {
+			if !in.put.Equal(in.read) {
+				rep.Issue(Issue{Kind: "monitor", Fingerprint: "C10:roundtrip-instant:" + bk.name, What: in.what + " read back is another instant than the one stored", Case: map[string]any{"name": name, "version": ver, "zone": zone.String()}, Model: in.put.Time.Format(time.RFC3339Nano), Impl: in.read.Time.Format(time.RFC3339Nano), Seed: seed, Index: idx})
+				break
+			}
+		}
+		if zone != time.UTC {
+			rep.H("roundtrip:zone-not-utc")
 		}
 		if !jsonEqual(json.RawMessage(gb), json.RawMessage(want)) || !jsonEqual(ul, wl) {
 			rep.Issue(Issue{Kind: "monitor", Fingerprint: "C10:roundtrip:" + bk.name, What: "release read back differs from the release stored", Case: map[string]any{"name": name, "version": ver}, Model: trunc(string(want), 600), Impl: trunc(string(gb), 600), Seed: seed, Index: idx})
